@@ -391,8 +391,8 @@ func runInBubble(spec *RunSpec, res *RunResult) {
 
 	// Wind down: everything still alive becomes a zombie and drains.
 	w.Kill()
-	synctest.Wait()
 	w.Stop()
+	synctest.Wait()
 	res.SimNs = w.Now()
 	res.Events = w.Events()
 	res.Decisions = w.Decisions()
